@@ -187,7 +187,23 @@ classes:
 			if j > len(items) {
 				j = len(items)
 			}
-			seq = append(seq, peg.Cls(false, i%24 == 0, items[i:j]...))
+			cl := peg.Cls(false, i%24 == 0, items[i:j]...)
+			if (i/12)%2 == 1 {
+				// escapes of every kind between the Unicode classes (explicit spelling)
+				src := "["
+				for k, it := range items[i:j] {
+					src += []string{"\\t", "\\x41", "\\101", "\\u00e9", "\\\\", "\\n"}[k%6] + it
+				}
+				cl.Src = src + "]"
+				var withEsc []string
+				for k, it := range items[i:j] {
+					withEsc = append(withEsc, []string{"\t", "A", "A", "é", "\\", "\n"}[k%6], it)
+				}
+				e2 := peg.Cls(false, false, withEsc...)
+				e2.Src = cl.Src
+				cl = e2
+			}
+			seq = append(seq, cl)
 		}
 		for _, withState := range []bool{false, true} {
 			body := []*peg.Expr{peg.Label("v", peg.Star(peg.Choice(seq...)))}
